@@ -51,7 +51,7 @@ REQUIRED_THEOREMS = ["Gv.Props.C03." + n for n in [
     "phylip_multi_counts", "phylip_outcome_full", "phylip_multi_outcome",
     # Nexus: counts of the DIMENSIONS commands / TAXA block as the parser read them (Proofs/NexusHeader.lean)
     "nexus_counts_as_read", "nexus_header_consistent_partial", "nexus_endblock_ends_block", "nexus_counterexample_nested_begin",
-    "nexus_counterexample_empty_command"]]
+    "nexus_counterexample_empty_command", "nexus_counterexample_second_data_block"]]
 TRUSTED = ["bufio.Reader / UTF-8 rune decoding (inputs with bytes >= 128 are judged by the predicate only)",
            "python watchdog: hang = no answer within TIMEOUT",
            "tools/extract/fmtfacts.go: recognises the proposed guards syntactically; the models are parametric in these facts"]
@@ -396,7 +396,68 @@ def partition_cases(rng, tier):
         yield Case("parse", ["partition", rng.choice([10, 10, 10, 3, 0]), G.hx(s)], True, "partition-random")
 
 
+def nexus_command_cases(rng, tier):
+    """Nexus files assembled command by command: blocks with their commands in any order, empty commands (`;;`),
+    unknown commands and blocks, comments between any two tokens, DIMENSIONS given several times / in several blocks /
+    with counts that do or do not fit the matrix, END / ENDBLOCK, missing terminators.  The oracle reads the declared
+    counts with its own scanner of the raw text: a success that contradicts them is a failing input."""
+    n = 400 if tier == "quick" else 6000
+    for _ in range(n):
+        nrow = rng.randint(1, 3)
+        L = rng.randint(1, 4)
+        rows = [("t%d" % i, "".join(rng.choice("ACGT") for _ in range(L))) for i in range(nrow)]
+        kw = lambda w: w if rng.random() < 0.6 else (w.upper() if rng.random() < 0.5 else "".join(c.upper() if rng.random() < 0.5 else c for c in w))
+        sep = lambda: rng.choice([" ", " ", "\n", "\n", " [c] ", "\n[c;c]\n", "  "])
+        declared_nt = rng.choice([nrow, nrow, nrow, nrow + 1, nrow + 2, 1, 0, 9])
+        declared_nc = rng.choice([L, L, L, L + 1, 1, 0, 7])
+        dims = kw("dimensions") + sep() + rng.choice([
+            "%s=%d %s=%d" % (kw("ntax"), declared_nt, kw("nchar"), declared_nc), "%s=%d" % (kw("ntax"), declared_nt),
+            "%s=%d" % (kw("nchar"), declared_nc), "%s=%d %s=%d" % (kw("nchar"), declared_nc, kw("ntax"), declared_nt)]) + ";"
+        fmtc = kw("format") + " " + kw("datatype") + "=" + rng.choice(["dna", "DNA", "nucleotide"]) + rng.choice(["", " gap=-", " missing=?"]) + ";"
+        matrix = kw("matrix") + "\n" + "".join("%s %s\n" % r for r in rows) + ";"
+        junk = lambda: rng.choice([";", ";", "foo bar;", "foo;", "options x=1;", "[note]", "charset a=1-2;", "title t;"])
+        cmds = []
+        if rng.random() < 0.85:
+            cmds.append(dims)
+        if rng.random() < 0.6:
+            cmds.append(fmtc)
+        if rng.random() < 0.25:
+            cmds.append(dims if rng.random() < 0.5 else kw("dimensions") + " " + kw("ntax") + "=%d;" % rng.choice([nrow, nrow + 1]))
+        if rng.random() < 0.5:
+            rng.shuffle(cmds)
+        cmds.append(matrix)
+        body = []
+        for c in cmds:
+            while rng.random() < 0.3:
+                body.append(junk())
+            body.append(c)
+        while rng.random() < 0.3:
+            body.append(junk())
+        blockname = rng.choice(["data", "data", "data", "characters", "DATA", "dAtA"])
+        ender = rng.choice(["end;", "end;", "END;", "endblock;", "end ;", "end", ""])
+        data_block = kw("begin") + " " + blockname + rng.choice([";", ";", ";;", " ;", ";\n;"]) + sep() + sep().join(body) + sep() + ender
+        pre = []
+        if rng.random() < 0.35:
+            labels = [r[0] for r in rows] + (["zz"] if rng.random() < 0.2 else [])
+            tn = rng.choice([len(labels), len(labels), nrow + 1, 9])
+            tb = [kw("dimensions") + " " + kw("ntax") + "=%d;" % tn, kw("taxlabels") + " " + " ".join(labels) + ";"]
+            if rng.random() < 0.3:
+                tb.insert(rng.randint(0, 2), junk())
+            pre.append(kw("begin") + " taxa" + rng.choice([";", ";;"]) + sep() + sep().join(tb) + sep() + rng.choice(["end;", "endblock;", "END;"]))
+        if rng.random() < 0.2:
+            pre.append(kw("begin") + " " + rng.choice(["trees", "sets", "assumptions"]) + ";" + sep() + rng.choice(["tree t=(a,b);", "dimensions ntax=7;", "x;"]) + sep() + rng.choice(["end;", "endblock;"]))
+        post = []
+        if rng.random() < 0.2:
+            post.append(kw("begin") + " " + rng.choice(["trees", "sets", "data"]) + ";" + sep() + rng.choice(["tree t=(a,b);", "dimensions ntax=7;", "x;"]) + sep() + rng.choice(["end;", "endblock;", ""]))
+        if rng.random() < 0.15:
+            rng.shuffle(pre)
+        txt = "#NEXUS" + rng.choice(["\n", "\n\n", " ", "\n[c]\n"]) + sep().join(pre + [data_block] + post) + rng.choice(["\n", "", "\n\n"])
+        yield Case("parse", ["nexus", popts_default("nexus", 0), G.hx(txt.encode())], True, "nexus:commands")
+
+
 def gen(rng, tier):
+    for c in nexus_command_cases(rng, tier):
+        yield c
     thorough = tier != "quick"
     sd = seeds(rng)
     seedset = {d for _, _, d, _, _ in sd}
